@@ -3293,7 +3293,9 @@ class DataFrame(FrameBase):
         if isinstance(other, Series):
             if other._name == self.index._name:
                 return self
-        elif other == self.index.name:
+        elif other == self.index.name and other not in self.columns:
+            # A column of that name takes precedence over the index (and
+            # ``drop`` decides whether it is kept), as in pandas
             return self
 
         if divisions is not None:
